@@ -30,12 +30,12 @@ type evidence struct {
 	cuts                                           map[string]int
 	nontrivial                                     int
 
-	Inconclusive  []string
-	KnownFindings []string
-	Unconfirmed   []string
-	Replays       []map[string]any
-	NativeAgree   int
-	NativeSkipped int
+	Inconclusive   []string
+	KnownFindings  []string
+	Unconfirmed    []string
+	Replays        []map[string]any
+	NativeAgree    int
+	NativeSkipped  int
 	NativeDisagree []string
 }
 
@@ -79,30 +79,35 @@ func (e *evidence) addReport(r *Run, rep *sx.Report, cfg *sx.Config) {
 		e.stubs[s] = true
 	}
 	for k, v := range rep.Bounds {
-		e.bounds[r.Fn+"."+k] = v
+		e.bounds[r.Label()+"."+k] = v
 	}
-	e.bounds[r.Fn+".delay_bound"] = cfg.Preemptions
-	e.bounds[r.Fn+".ticker_ticks"] = cfg.Ticks
-	e.bounds[r.Fn+".max_instructions_per_path"] = cfg.MaxSteps
+	e.bounds[r.Label()+".delay_bound"] = cfg.Preemptions
+	e.bounds[r.Label()+".ticker_ticks"] = cfg.Ticks
+	if r.Slow {
+		e.bounds[r.Label()+".default_scheduler"] = "slow-plugin: a goroutine at the end of a plugin call waits until all others are blocked or waiting there too (FIFO)"
+	} else if len(cfg.SwitchOn) > 0 {
+		e.bounds[r.Label()+".default_scheduler"] = "newest-ready-goroutine-first, current goroutine continues at switch points"
+	}
+	e.bounds[r.Label()+".max_instructions_per_path"] = cfg.MaxSteps
 	var sw []string
 	for s := range cfg.SwitchOn {
 		sw = append(sw, s)
 	}
 	sort.Strings(sw)
-	e.bounds[r.Fn+".switch_on"] = strings.Join(sw, ",")
+	e.bounds[r.Label()+".switch_on"] = strings.Join(sw, ",")
 	for w, n := range rep.Reached {
-		e.witnesses[r.Fn+": "+w] += n
+		e.witnesses[r.Label()+": "+w] += n
 	}
 	for c, n := range rep.CutMsgs {
-		e.cuts[r.Fn+": "+c] += n
+		e.cuts[r.Label()+": "+c] += n
 	}
 	for _, s := range rep.Samples {
-		s["harness"] = r.Fn
+		s["harness"] = r.Label()
 		if len(e.samples) < 6 {
 			e.samples = append(e.samples, s)
 		}
 	}
-	e.harnesses = append(e.harnesses, map[string]any{"harness": r.Fn, "package": r.Pkg, "paths": rep.Paths, "paths_completed": rep.Done, "paths_ending_in_fault": rep.Faults,
+	e.harnesses = append(e.harnesses, map[string]any{"harness": r.Label(), "package": r.Pkg, "paths": rep.Paths, "paths_completed": rep.Done, "paths_ending_in_fault": rep.Faults,
 		"paths_infeasible_or_assumed_away": rep.Dropped, "paths_cut_by_stated_bound": rep.Cut, "paths_truncated": rep.Truncated, "paths_unsupported": rep.Unsupported,
 		"decisions": rep.Decisions, "decision_kinds": rep.DecisionKinds, "solver_queries": rep.Queries, "unsat": rep.NUnsat, "sat": rep.NSat, "unknown": rep.NUnknown,
 		"assertions_evaluated": rep.Asserts, "assertions_decided_by_solver": rep.AssertQueries, "solver_s": round1(rep.SolverS), "wall_s": round1(rep.WallS),
@@ -139,9 +144,9 @@ func (e *evidence) write(wall float64, violations int) {
 		"traces_validated_against_impl": e.NativeAgree + len(e.Replays),
 		"native_differential": map[string]any{"sampled_paths_agreeing": e.NativeAgree, "sampled_paths_skipped_natively": e.NativeSkipped, "disagreements": e.NativeDisagree,
 			"what": "sampled symbolic paths (reservoir, seeded by VERIF_SEED) re-run against the real build under one model of their path condition; every assertion must pass natively too"},
-		"samples":                       samples,
-		"evaluations":                   e.paths,
-		"distinct_nontrivial":           e.nontrivial,
+		"samples":             samples,
+		"evaluations":         e.paths,
+		"distinct_nontrivial": e.nontrivial,
 		"rule": "one evaluation = one symbolic path: a distinct decision vector (plan shape and other bounded case splits, scheduler choices, solver-feasible branch outcomes) " +
 			"under which all integer/boolean inputs stay universally quantified; a path is counted non-trivial when it ran the code under test to the end of the harness " +
 			"(or to a fault) with a satisfiable path condition; infeasible, assumed-away and cut paths are not counted",
